@@ -111,6 +111,27 @@ def sampleKey (s : Sample) : Int := s.id.getD (-1)
 def acqMethod (samples : List Sample) : List Name :=
   (sortByInt sampleKey samples).filterMap (·.file)
 
+/-- executable form of the method-file specification (an insertion sort, read from the end of the
+document: each `SampleParameter` element is put in front of the first element whose SampleID is
+not smaller, so elements with equal SampleID keep their document order).  What this list *is* is
+stated without any algorithm by `StableSortedBy` below. -/
+def insertSample (s : Sample) : List Sample → List Sample
+  | [] => [s]
+  | t :: ts => if sampleKey s ≤ sampleKey t then s :: t :: ts else t :: insertSample s ts
+
+def acqSorted (samples : List Sample) : List Sample := samples.foldr insertSample []
+
+/-- specification of `acq_method_xml_read_datafiles`: the `DataFileName` texts of the
+`SampleParameter` elements that have one, by ascending SampleID (absent/empty = -1), elements with
+the same SampleID in document order; the names are taken as written (no path is stripped) -/
+def acqSpec (samples : List Sample) : List Name := (acqSorted samples).filterMap (·.file)
+
+/-- declarative meaning of "`sorted` is `l` stably sorted by `key`": the same elements, ascending
+keys, and for every key value the elements carrying it are in their original order -/
+def StableSortedBy {α : Type} (key : α → Int) (l sorted : List α) : Prop :=
+  sorted.Perm l ∧ sorted.Pairwise (fun a b => key a ≤ key b) ∧
+  ∀ v : Int, sorted.filter (fun a => key a = v) = l.filter (fun a => key a = v)
+
 /-- a directory entry of the batch directory -/
 structure Entry where
   name : Name
@@ -130,21 +151,26 @@ def isDataName (n : Name) : Bool :=
 def digitsVal (n : Name) : Nat :=
   (n.filter Char.isDigit).foldl (fun a c => 10 * a + (c.toNat - 48)) 0
 
+/-- a name without any digit makes the sort key `int("")`, which raises ValueError -/
+def hasDigit (n : Name) : Bool := n.any Char.isDigit
+
 /-- the data directories of a listing, in listing order -/
 def dataDirs (listing : List Entry) : List Name :=
   (listing.filter (fun e => isDataName e.name && e.isDir)).map (·.name)
 
-/-- `find_datafiles_alphabetical` -/
-def byNumber (listing : List Entry) : List Name :=
-  sortByNat digitsVal (dataDirs listing)
+/-- `find_datafiles_alphabetical`; `none` = ValueError: `list.sort(key=...)` evaluates the key of
+every data directory, and `int("")` raises for a name without digit -/
+def byNumber (listing : List Entry) : Option (List Name) :=
+  if (dataDirs listing).all hasDigit then some (sortByNat digitsVal (dataDirs listing)) else none
 
 /-- specification of the directory scan: insertion of every data directory into an ascending list -/
 def insertByNum (x : Name) : List Name → List Name
   | [] => [x]
   | y :: ys => if digitsVal x < digitsVal y then x :: y :: ys else y :: insertByNum x ys
 
-def byNumberSpec (listing : List Entry) : List Name :=
-  (dataDirs listing).foldl (fun acc x => insertByNum x acc) []
+def byNumberSpec (listing : List Entry) : Option (List Name) :=
+  if (dataDirs listing).any (fun n => !hasDigit n) then none
+  else some ((dataDirs listing).foldl (fun acc x => insertByNum x acc) [])
 
 /-! ## 4. `collect_datafiles` -/
 
@@ -165,18 +191,40 @@ def Meta.source (m : Meta) (spc : Bool) : Method → Option (List Name)
   | .batchCsv => m.csv.map (fun rows =>
       if spc then keepLast ((rows.filter (fun r => r.result = pass)).map (fun r => basenameSpec r.file))
       else batchCsv rows)
-  | .acqMethod => m.acq.map acqMethod
+  | .acqMethod => m.acq.map (fun l => if spc then acqSpec l else acqMethod l)
   | .alphabetical => none
 
-/-- `collect_datafiles`: the first method whose expected files all exist; `none` = ValueError.
+/-- the directory scan, mechanism or specification -/
+def Meta.scan (m : Meta) (spc : Bool) : Option (List Name) :=
+  if spc then byNumberSpec m.listing else byNumber m.listing
+
+/-- `collect_datafiles`: the first method whose expected files all exist; `none` = ValueError (no
+method left, or the directory scan met a name without digit).
 `spc = true` evaluates the specification of every reader instead of its mechanism. -/
 def collect (m : Meta) (spc : Bool) : List Method → Option (List Name)
   | [] => none
-  | .alphabetical :: _ => some (if spc then byNumberSpec m.listing else byNumber m.listing)
+  | .alphabetical :: _ => m.scan spc
   | meth :: rest =>
     match m.source spc meth with
     | some files => if files.all m.exists then some files else collect m spc rest
     | none => collect m spc rest
+
+/-- a listing method is passed over when its metadata file is absent or names a data file that
+does not exist (`src`: what each method's metadata file lists, `none` = file absent) -/
+def Meta.Fails (m : Meta) (src : Method → Option (List Name)) (meth : Method) : Prop :=
+  meth ≠ .alphabetical ∧ ∀ files, src meth = some files → ∃ f ∈ files, m.exists f = false
+
+/-- declarative specification of `collect_datafiles`, independent of the loop: the result is what
+the FIRST method of the list that does not fail gives — for `alphabetical` the directory scan
+(`scan`, which may itself raise), for a listing method the data files its metadata file names, all
+of which exist — every method before it having failed; `none` (ValueError) when every method fails
+(or the scan raised). -/
+def Selected (m : Meta) (src : Method → Option (List Name)) (scan : Option (List Name))
+    (methods : List Method) (r : Option (List Name)) : Prop :=
+  (∃ pre meth post, methods = pre ++ meth :: post ∧ (∀ x ∈ pre, m.Fails src x) ∧
+    ((meth = .alphabetical ∧ r = scan) ∨
+     (meth ≠ .alphabetical ∧ ∃ files, src meth = some files ∧ (∀ f ∈ files, m.exists f = true) ∧ r = some files)))
+  ∨ ((∀ x ∈ methods, m.Fails src x) ∧ r = none)
 
 /-! ## 5. mass table -/
 
@@ -269,6 +317,22 @@ def decode {α : Type} (ids : List Nat) (scans : List ScanRec) (profile : List (
     List (List (Option α)) :=
   ids.map (decodeMass ids.length scans profile)
 
+/-- a well laid out data file: `R` scan records pointing at `R` profile records of `k` values,
+`SpectrumOffset = 68 + r·ByteCount` (the byte position of record `r` behind the 68-byte header) -/
+structure Layout {α : Type} (R k bc : Nat) (scans : List ScanRec) (profile : List (List α)) : Prop where
+  nprofile : profile.length = R
+  nscans : scans.length = R
+  width : ∀ row ∈ profile, row.length = k
+  offs : ∀ r (hr : r < scans.length), scans[r].off = 68 + r * bc ∧ scans[r].bc = bc
+  pos : 0 < bc
+
+/-- decidable form of `∃ bc, Layout scans.length k bc scans profile` (the driver reports it; files
+outside it — clipped, negative or misaligned offsets — are compared mechanism-vs-pewlib only) -/
+def layoutB {α : Type} (k : Nat) (scans : List ScanRec) (profile : List (List α)) : Bool :=
+  let bc := (scans.head?.map (·.bc)).getD 0
+  profile.length == scans.length && profile.all (fun row => row.length == k) && decide (0 < bc) &&
+    scans.zipIdx.all (fun (s, r) => s.off == 68 + r * bc && s.bc == bc)
+
 /-- the per-line CSV export, field by field: preamble lines, header fields (the first one starts
 with `Time`), data rows, footer lines; `eol` is what is left of the line terminator (`\r` or nothing) -/
 structure CsvFile where
@@ -321,9 +385,10 @@ def linesOf (m : Meta) (spc : Bool) (methods : List Method) : Except Err (List N
   match collect m spc methods with
   | none => .error .value
   | some [] =>
-    match (if spc then byNumberSpec m.listing else byNumber m.listing) with
-    | [] => .error .notFound
-    | l => .ok l
+    match m.scan spc with
+    | none => .error .value
+    | some [] => .error .notFound
+    | some l => .ok l
   | some l => .ok l
 
 /-- `load_binary` up to (not including) the counts-per-second division.
@@ -430,6 +495,22 @@ def parseDec (s : Name) : Option Rat :=
     let v : Rat := (digitsNat (ip ++ fp) : Rat) / ((10 ^ fp.length : Nat) : Rat)
     some (if neg then -v else v)
 
+/-- white space at the ends of a line as genfromtxt's splitter strips it -/
+def lineWs (c : Char) : Bool := c = ' ' || c = '\r' || c = '\n'
+
+/-- a per-line CSV export that `csv_valid_lines` + `genfromtxt` read field by field -/
+structure CsvWF (c : CsvFile) : Prop where
+  eol_blank : ∀ ch ∈ c.eol, lineWs ch = true
+  header_ne : c.header ≠ []
+  nocomma : ∀ fs ∈ c.header :: c.rows, ∀ f ∈ fs, ',' ∉ f
+  width : ∀ r ∈ c.rows, r.length = c.header.length
+  ends : ∀ fs ∈ c.header :: c.rows, ∃ h : joinFields fs ≠ [],
+    lineWs ((joinFields fs).head h) = false ∧ lineWs ((joinFields fs).getLast h) = false
+  pre : ∀ l ∈ c.pre, startsWithTime (l ++ c.eol) = false
+  head : startsWithTime (joinFields c.header ++ c.eol) = true
+  foot : ∀ l ∈ c.foot, countCommas (l ++ c.eol) ≠ c.header.length - 1 ∧ startsWithTime (l ++ c.eol) = false
+  parse : ∀ r ∈ c.rows, ∀ f ∈ r, ∃ q, parseDec f = some q
+
 structure Table where
   names : List Name
   rows : List (List Rat)      -- [scan][column]
@@ -473,10 +554,15 @@ def timeName : Name := "Time_[Sec]".toList
 def transpose (ncol : Nat) (rows : List (List Rat)) : List (List Rat) :=
   (List.range ncol).map (fun j => rows.map (fun r => r.getD j 0))
 
+/-- `data[i, :] = line`: a table of `nscan` rows is stored as it is; a table with a single data row
+(genfromtxt returns a 0-d record) is broadcast over all `nscan` scans -/
+def csvRows (nscan : Nat) (t : Table) : List (List Rat) :=
+  if t.rows.length = nscan then t.rows else List.replicate nscan (t.rows.headD [])
+
 /-- one line of `load_csv`'s array, `[column][scan]`: zeros when the CSV is missing (`line is None`) -/
 def csvCols (ncol nscan : Nat) : Option Table → List (List Rat)
   | none => List.replicate ncol (List.replicate nscan 0)
-  | some t => transpose ncol t.rows
+  | some t => transpose ncol (csvRows nscan t)
 
 /-- `read_datafile_csvs` for one data file: `some none` = csv missing (line blanked); `none` = the
 csv exists but cannot be read (raises) -/
@@ -485,11 +571,12 @@ def readLine (csv : Option CsvFile) : Option (Option Table) :=
   | none => some none
   | some c => (readCsv c.lines).map some
 
-/-- every present line has the shape of the first present one (`data[i, :] = line` raises otherwise) -/
+/-- every present line has the shape of the first present one, or a single data row (which NumPy
+broadcasts); `data[i, :] = line` raises otherwise -/
 def shapeOk (nscan ncol : Nat) (t : Option Table) : Bool :=
   match t with
   | none => true
-  | some t => decide (t.rows.length = nscan ∧ t.names.length = ncol)
+  | some t => decide ((t.rows.length = nscan ∨ t.rows.length = 1) ∧ t.names.length = ncol)
 
 /-- the field names after the optional renaming from the method file -/
 def csvNames? (acqNames : Option (List Name)) (names : List Name) : List Name :=
@@ -513,7 +600,9 @@ def loadCsv {α : Type} (m : Meta) (files : List (DataFile α)) (acqNames : Opti
         match tabs.filterMap id with
         | [] => .error .other          -- StopIteration
         | t0 :: _ =>
-          if t0.rows.length < 2 then .error .other      -- a single data row gives a 0-d array
+          -- a single data row gives a 0-d array (`data_shape[0]`: IndexError); no data row at all gives
+          -- an array of shape (0,): an image without scans
+          if t0.rows.length = 1 then .error .other
           else if !(tabs.all (shapeOk t0.rows.length t0.names.length)) then .error .value
           else
             let cols : List (List (List Rat)) := tabs.map (csvCols t0.names.length t0.rows.length)
@@ -548,19 +637,62 @@ def loadCsvSpec {α : Type} (m : Meta) (files : List (DataFile α)) (specNames :
                   | some ns => ns),
                 img := cols.map (·.drop 1), times := cols.map (·.headD []) }
 
+/-- the part of `csv_pixel`'s hypotheses that the generator varies, decidably: every export has as
+many data rows (at least 2) and header fields as the first one -/
+def csvShapeB {α : Type} (files : List (DataFile α)) : Bool :=
+  match files.filterMap (·.csv) with
+  | [] => true
+  | c0 :: rest => decide (2 ≤ c0.rows.length) &&
+      rest.all (fun c => c.rows.length == c0.rows.length && c.header.length == c0.header.length)
+
 /-! ## 8. binary-vs-CSV agreement, method file vs log -/
 
 def absRat (q : Rat) : Rat := if q < 0 then -q else q
 
-def agreeLine (tol : Rat) (a b : List (List Rat)) : Bool :=
-  a.length == b.length && (a.zip b).all (fun (ca, cb) =>
-    ca.length == cb.length && (ca.zip cb).all (fun (x, y) => decide (absRat (x - y) ≤ tol + absRat x / 2 ^ 50)))
+/-- `x` and `y` are equal to `tol` (half a unit of the last printed place) up to a relative `slack`
+for the floating-point roundings on the way (the counts-per-second division the text was printed
+from, the decimal-to-binary conversion when it is read back) -/
+def agreePx (tol slack x y : Rat) : Bool := decide (absRat (x - y) ≤ tol + slack * (absRat x + absRat y))
 
-/-- every pixel of every line whose CSV is present agrees to `tol` (half a unit of the last printed
-place, plus the rounding of the counts-per-second division the text was printed from) -/
-def agree (tol : Rat) (present : List Bool) (bin csv : Image Rat) : Bool :=
+def agreeLine (tol slack : Rat) (a b : List (List Rat)) : Bool :=
+  a.length == b.length && (a.zip b).all (fun (ca, cb) =>
+    ca.length == cb.length && (ca.zip cb).all (fun (x, y) => agreePx tol slack x y))
+
+/-- every pixel of every line whose CSV is present agrees to `tol` -/
+def agree (tol slack : Rat) (present : List Bool) (bin csv : Image Rat) : Bool :=
   bin.img.length == csv.img.length && bin.img.length == present.length &&
-    ((bin.img.zip csv.img).zip present).all (fun ((a, b), p) => !p || agreeLine tol a b)
+    ((bin.img.zip csv.img).zip present).all (fun ((a, b), p) => !p || agreeLine tol slack a b)
+
+/-- slack under which the exact values of a batch count as "the CSV was printed from the binary
+values": one correctly rounded float64 division (relative error ≤ 2⁻⁵³) fits twice -/
+def printSlack : Rat := 1 / 2 ^ 52
+
+/-- slack under which the two float64 imports are compared (theorem `agree_transfer`: it follows
+from `printSlack` on the exact values when each imported float is within 2⁻⁵³ of its exact value) -/
+def agreeSlack : Rat := 1 / 2 ^ 50
+
+/-- half a unit of the `d`-th decimal place -/
+def halfUnit (d : Nat) : Rat := 1 / (2 * (10 ^ d : Nat) : Rat)
+
+/-- round-half-up to `d` decimals: an instance of a printer that meets the hypothesis of `agree_of_printed` -/
+def roundDec (d : Nat) (q : Rat) : Rat := ((q * (10 ^ d : Nat) + 1 / 2).floor : Int) / ((10 ^ d : Nat) : Rat)
+
+/-- pixel `[line][element][scan]` of an image -/
+def px {β : Type} (img : List (List (List β))) (i j r : Nat) : Option β :=
+  ((img[i]?).bind (·[j]?)).bind (·[r]?)
+
+/-- the lines marked present have the same number of elements and of scans in both images -/
+def SameShape {β : Type} (present : List Bool) (a b : List (List (List β))) : Prop :=
+  a.length = b.length ∧ a.length = present.length ∧
+  ∀ (i : Nat) la lb, present[i]? = some true → a[i]? = some la → b[i]? = some lb →
+    la.length = lb.length ∧ ∀ (j : Nat) ca cb, la[j]? = some ca → lb[j]? = some cb → ca.length = cb.length
+
+/-- `b` is `a` with every pixel replaced by a number within relative distance `eps` of it -/
+def Near (eps : Rat) (a b : List (List (List Rat))) : Prop :=
+  a.length = b.length ∧
+  ∀ (i : Nat) la lb, a[i]? = some la → b[i]? = some lb →
+    la.length = lb.length ∧ ∀ (j : Nat) ca cb, la[j]? = some ca → lb[j]? = some cb →
+      ca.length = cb.length ∧ ∀ (r : Nat) x y, ca[r]? = some x → cb[r]? = some y → absRat (y - x) ≤ eps * absRat x
 
 def logName (e : LogEntry) : Option Name := e.file.map basename
 
